@@ -254,13 +254,15 @@ def run(C, R):
                     if e.get('fn') != fn['path'] and (F.fn(e.get('fn') or '') or {}).get('parent') != fn['path']:
                         continue
                     locs = []
-                    if e['k'] in ('read', 'write', 'take', 'replace', 'update_waker'):
+                    # only MUTATING accesses count: reading a flag under the lock is not a transition
+                    if e['k'] in ('write', 'take', 'replace', 'update_waker'):
                         locs.append(e.get('loc') or e.get('slot'))
-                    elif e['k'] == 'qop':
+                    elif e['k'] == 'qop' and e['op'] not in ('is_empty', 'peek_first', 'peek_last', 'peek_min'):
                         locs.append(e.get('queue'))
                     elif e['k'] == 'call':
+                        tys = e.get('argtys') or []
                         for i, a in enumerate(e['args']):
-                            if a[0] == 'ref':
+                            if a[0] == 'ref' and i < len(tys) and tys[i].startswith('&mut'):
                                 if i == 0 and a[1] and a[1][-1] == '<locked>':
                                     continue   # the whole state as receiver of one of its methods
                                 locs.append(a[1])
@@ -285,7 +287,8 @@ def run(C, R):
                                    'state method: the state functions are no longer the only transitions of the '
                                    'primitive, which every path rule relies on' % (fn['path'], field),
                                    where(F, e) if e.get('ln') else '%s:%s' % (fn['file'], fn['line']))
-        R.floor('C01.I8 direct-state-accesses[%s]' % cfg, n8, 1)
+        if n8 == 0:
+            R.ok('C01.I8', 'no function outside the state layer mutates lock-protected state (zero-count; control: I5 receiver sites)')
         # ---------------- I6 address stability: by-value temporaries of node-bearing types
         bearing = set(roles.futures) | set(NODE_ADTS)
         wrappers = set()
